@@ -1,8 +1,7 @@
 (* Proofs about policy evaluation (property C14):
    - the code's evaluation (Model/Policy.v eval_code: nested loops over
      policies and statements, boolean lookups) refines the reference semantics
-     (Spec/PolicySpec.v eval_spec) for every assignment outside the known
-     class C14-1 (as-path sets with general regular expressions);
+     (Spec/PolicySpec.v eval_spec) for every well-formed assignment;
    - the reference semantics is functional (so "refines" is "equals");
    - evaluation never panics on attribute lists the API / the wire decoder can
      produce. *)
@@ -26,13 +25,6 @@ Definition wf_cond (c : cond) : Prop :=
 Definition wf_stmt (s : stmt) : Prop := Forall wf_cond (st_conds s).
 Definition wf_assignment (a : assignment) : Prop :=
   Forall (fun p => Forall wf_stmt (p_stmts p)) (as_pols a).
-
-(* known finding C14-1: the assignment reaches an as-path set that contains a
-   general regular expression (the code never evaluates those) *)
-Definition cond_has_regex (c : cond) : Prop :=
-  match c with CSet _ _ (SAsPath s) => ap_regex s <> [] | _ => False end.
-Definition Known_C14_1 (a : assignment) : Prop :=
-  exists p s c, In p (as_pols a) /\ In s (p_stmts p) /\ In c (st_conds s) /\ cond_has_regex c.
 
 (* ------------------------------------------------------------------ *)
 (* arithmetic: masking vs shifting                                      *)
@@ -247,26 +239,27 @@ Qed.
 
 Section Refinement.
   Variable rx_comm rx_ext rx_large : N -> N -> bool.
-  Variable rx_aspath : N -> list (list N) -> bool.
+  Variable rx_aspath : N -> list N -> bool.
+  Variable rpki : option (nlri -> N -> option N).
 
-  Notation cond_eval := (cond_eval rx_comm rx_ext rx_large).
-  Notation conds_all := (conds_all rx_comm rx_ext rx_large).
-  Notation stmt_apply := (stmt_apply rx_comm rx_ext rx_large).
-  Notation policy_apply := (policy_apply rx_comm rx_ext rx_large).
-  Notation pols_apply := (pols_apply rx_comm rx_ext rx_large).
-  Notation eval_code := (eval_code rx_comm rx_ext rx_large).
-  Notation cond_holds := (cond_holds rx_comm rx_ext rx_large rx_aspath).
-  Notation stmt_applies := (stmt_applies rx_comm rx_ext rx_large rx_aspath).
-  Notation runs := (runs rx_comm rx_ext rx_large rx_aspath).
-  Notation eval_spec := (eval_spec rx_comm rx_ext rx_large rx_aspath).
+  Notation cond_eval := (cond_eval rx_comm rx_ext rx_large rx_aspath rpki).
+  Notation conds_all := (conds_all rx_comm rx_ext rx_large rx_aspath rpki).
+  Notation stmt_apply := (stmt_apply rx_comm rx_ext rx_large rx_aspath rpki).
+  Notation policy_apply := (policy_apply rx_comm rx_ext rx_large rx_aspath rpki).
+  Notation pols_apply := (pols_apply rx_comm rx_ext rx_large rx_aspath rpki).
+  Notation eval_code := (eval_code rx_comm rx_ext rx_large rx_aspath rpki).
+  Notation cond_holds := (cond_holds rx_comm rx_ext rx_large rx_aspath rpki).
+  Notation stmt_applies := (stmt_applies rx_comm rx_ext rx_large rx_aspath rpki).
+  Notation runs := (runs rx_comm rx_ext rx_large rx_aspath rpki).
+  Notation eval_spec := (eval_spec rx_comm rx_ext rx_large rx_aspath rpki).
 
   (* one condition: the boolean the code computes is the truth of the
      condition as the property text reads it *)
   Lemma cond_eval_sound x r c b :
-    wf_cond c -> ~ cond_has_regex c ->
+    wf_cond c ->
     cond_eval x r c = Ok b -> (b = true <-> cond_holds x r c).
   Proof.
-    intros Hwf Hk H.
+    intros Hwf H.
     destruct c as [n o s|cm v|l|st|v|v|v|t|cm v|l]; cbn [Policy.cond_eval] in H.
     - destruct s as [p|l|s|l|l|l].
       + (* prefix *)
@@ -282,36 +275,51 @@ Section Refinement.
         cbn [PolicySpec.cond_holds]. inversion H; subst; clear H.
         destruct o; rewrite ?negb_true_iff, <- ?not_true_iff_false, existsb_exists; tauto.
       + (* as-path *)
-        cbn [cond_has_regex] in Hk.
-        assert (Hre : ap_regex s = []) by (destruct (ap_regex s); [reflexivity|exfalso; apply Hk; discriminate]).
-        cbn [PolicySpec.cond_holds]. unfold apset_pats. rewrite Hre. cbn [map]. rewrite app_nil_r.
-        unfold route_segs.
-        destruct (find_attr AS_PATH (r_attrs r)) as [a|] eqn:F.
-        * destruct (ap_single s) as [|s0 ss] eqn:S.
-          { inversion H; subst; clear H. cbn [map]. destruct o; cbn [opt_holds].
-            - split; [discriminate|]. intros (p & [] & _).
-            - split; [intros _ p []|reflexivity].
-            - split; [intros _ (p & [] & _)|reflexivity]. }
-          { unfold aspath_iter in H. destruct (attr_binary a) as [bs|]; [|discriminate].
-            cbn [bind] in H. inversion H; subst; clear H.
-            set (segs := aspath_segs (length bs) bs).
-            assert (Hp : forall p : single + N, In p (map inl (ap_single s)) ->
-                       ((match p with inl m => single_match m segs | inr _ => false end) = true
-                        <-> aspath_pat_holds rx_aspath (Some segs) p)).
-            { intros p Hin. apply in_map_iff in Hin. destruct Hin as (m & <- & _).
-              cbn [aspath_pat_holds]. apply single_match_iff. }
-            rewrite <- S.
-            pose proof (opt_holds_bool o (map inl (ap_single s)) (aspath_pat_holds rx_aspath (Some segs))
-                          (fun p => match p with inl m => single_match m segs | inr _ => false end) Hp) as HH.
-            rewrite <- HH. clear HH Hp.
-            rewrite existsb_map_c, forallb_map_c. rewrite S. cbn [existsb forallb]. destruct o; tauto. }
-        * inversion H; subst; clear H.
-          destruct o; cbn [opt_holds].
-          { split; [discriminate|]. intros (p & _ & []). }
-          { destruct (ap_single s) as [|s0 ss]; cbn [map].
-            - split; [intros _ p []|reflexivity].
-            - split; [discriminate|]. intros Hall. exfalso. apply (Hall (inl s0)). left; reflexivity. }
-          { split; [intros _ (p & _ & [])|reflexivity]. }
+        cbn [PolicySpec.cond_holds]. unfold apset_pats.
+        set (a := find_attr AS_PATH (r_attrs r)) in *.
+        destruct (match a, ap_single s with
+                  | Some a', _ :: _ => do sg <- aspath_iter a'; Ok (Some sg)
+                  | _, _ => Ok None
+                  end) as [segs|tag] eqn:ES; cbn [bind] in H; [|discriminate].
+        inversion H; subst b; clear H.
+        set (sgl := fun m => match segs with Some sg => single_match m sg | None => false end).
+        set (path := match ap_regex s with
+                     | [] => None
+                     | _ => match a with
+                            | Some a' => match attr_binary a' with Some b => Some (render_path b) | None => None end
+                            | None => None
+                            end
+                     end).
+        set (rgx := fun id => match path with Some p => rx_aspath id p | None => false end).
+        (* the per-pattern boolean reflects the per-pattern meaning *)
+        assert (Hs : forall m, In m (ap_single s) ->
+                     (sgl m = true <-> aspath_pat_holds rx_aspath (r_attrs r) (inl m))).
+        { intros m Hin. cbn [aspath_pat_holds]. unfold route_segs. fold a. unfold sgl.
+          destruct a as [a'|].
+          - destruct (ap_single s) as [|s0 ss]; [destruct Hin|].
+            unfold aspath_iter in ES. destruct (attr_binary a') as [bs|]; [|discriminate].
+            cbn [bind] in ES. inversion ES; subst segs. rewrite single_match_iff. split.
+            + intros Hm. eexists. split; [reflexivity|exact Hm].
+            + intros (sg & E & Hm). inversion E; subst. exact Hm.
+          - inversion ES; subst segs. split; [discriminate|]. intros (sg & E & _). discriminate. }
+        assert (Hr : forall id, In id (ap_regex s) ->
+                     (rgx id = true <-> aspath_pat_holds rx_aspath (r_attrs r) (inr id))).
+        { intros id Hin. cbn [aspath_pat_holds]. unfold route_path. fold a. unfold rgx, path.
+          destruct (ap_regex s) as [|r0 rs]; [destruct Hin|].
+          destruct a as [a'|].
+          - destruct (attr_binary a') as [bs|].
+            + split.
+              * intros Hm. exists bs. auto.
+              * intros (b & E & Hm). inversion E; subst. exact Hm.
+            + split; [discriminate|]. intros (b & E & _). discriminate.
+          - split; [discriminate|]. intros (b & E & _). discriminate. }
+        set (pb := fun p : single + N => match p with inl m => sgl m | inr id => rgx id end).
+        assert (Hp : forall p, In p (map inl (ap_single s) ++ map inr (ap_regex s)) ->
+                     (pb p = true <-> aspath_pat_holds rx_aspath (r_attrs r) p)).
+        { intros p Hin. apply in_app_iff in Hin. destruct Hin as [Hin|Hin]; apply in_map_iff in Hin;
+            destruct Hin as (y & <- & Hy); [apply Hs|apply Hr]; exact Hy. }
+        rewrite <- (opt_holds_bool o _ _ pb Hp).
+        rewrite existsb_app, forallb_app, !existsb_map_c, !forallb_map_c. cbn [pb]. tauto.
       + (* community *)
         inversion H; subst; clear H. cbn [PolicySpec.cond_holds].
         apply match_set_iff. intros p. rewrite existsb_exists. unfold comm_pat_matches.
@@ -338,7 +346,27 @@ Section Refinement.
         * intros (i & Hin & Hi). exists nh. split; [reflexivity|]. exists i. auto.
         * intros (nh' & E & i & Hin & Hi). inversion E; subst. exists i. auto.
       + split; [discriminate|]. intros (nh & E & _). discriminate.
-    - inversion H; subst. cbn [PolicySpec.cond_holds]. split; [discriminate|tauto].
+    - (* rpki *)
+      cbn [PolicySpec.cond_holds]. unfold route_origin.
+      destruct rpki as [validate|].
+      + destruct (find_attr AS_PATH (r_attrs r)) as [a|].
+        * destruct (as_path_origin a) as [o|tag]; cbn [bind] in H; [|discriminate].
+          inversion H; subst b; clear H.
+          set (asn := match o with Some x0 => x0 | None => s_local_asn (x_src x) end).
+          assert (Ho : match o with Some o0 => Some o0 | None => Some (s_local_asn (x_src x)) end = Some asn)
+            by (destruct o; reflexivity).
+          rewrite Ho. destruct (validate (x_net x) asn) as [v|] eqn:V.
+          { rewrite N.eqb_eq. split.
+            - intros ->. exists validate, asn. auto.
+            - intros (v' & asn' & E & Ea & Ev). inversion E; subst. inversion Ea; subst. rewrite V in Ev. inversion Ev; reflexivity. }
+          { split; [discriminate|]. intros (v' & asn' & E & Ea & Ev). inversion E; subst. inversion Ea; subst. rewrite V in Ev. discriminate. }
+        * cbn [bind] in H. inversion H; subst b; clear H.
+          destruct (validate (x_net x) (s_local_asn (x_src x))) as [v|] eqn:V.
+          { rewrite N.eqb_eq. split.
+            - intros ->. exists validate, (s_local_asn (x_src x)). auto.
+            - intros (v' & asn' & E & Ea & Ev). inversion E; subst. inversion Ea; subst. rewrite V in Ev. inversion Ev; reflexivity. }
+          { split; [discriminate|]. intros (v' & asn' & E & Ea & Ev). inversion E; subst. inversion Ea; subst. rewrite V in Ev. discriminate. }
+      + inversion H; subst. split; [discriminate|]. intros (v' & asn' & E & _). discriminate.
     - inversion H; subst; clear H. cbn [PolicySpec.cond_holds]. apply val_is_iff.
     - inversion H; subst; clear H. cbn [PolicySpec.cond_holds]. apply val_is_iff.
     - inversion H; subst; clear H. cbn [PolicySpec.cond_holds]. apply val_is_iff.
@@ -351,24 +379,23 @@ Section Refinement.
   Qed.
 
   Lemma conds_all_sound x r l b :
-    Forall wf_cond l -> (forall c, In c l -> ~ cond_has_regex c) ->
+    Forall wf_cond l ->
     conds_all x r l = Ok b -> (b = true <-> Forall (cond_holds x r) l).
   Proof.
-    induction l as [|c l IH]; intros Hwf Hk H; cbn [Policy.conds_all] in H.
+    induction l as [|c l IH]; intros Hwf H; cbn [Policy.conds_all] in H.
     - inversion H; subst. split; [constructor|reflexivity].
     - inversion Hwf as [|? ? Hc Hl]; subst.
       destruct (cond_eval x r c) as [bc|t] eqn:E; cbn [bind] in H; [|discriminate].
-      pose proof (cond_eval_sound x r c bc Hc (Hk c (or_introl eq_refl)) E) as Hs.
+      pose proof (cond_eval_sound x r c bc Hc E) as Hs.
       destruct bc.
-      + specialize (IH Hl (fun c' Hin => Hk c' (or_intror Hin)) H). rewrite IH. split.
+      + specialize (IH Hl H). rewrite IH. split.
         * intros Hf. constructor; [apply Hs; reflexivity|exact Hf].
         * intros Hf. inversion Hf; assumption.
       + inversion H; subst. split; [discriminate|]. intros Hf. inversion Hf as [|? ? Hc' _]; subst.
         apply Hs in Hc'. discriminate.
   Qed.
 
-  Definition stmt_ok (s : stmt) : Prop :=
-    wf_stmt s /\ forall c, In c (st_conds s) -> ~ cond_has_regex c.
+  Definition stmt_ok (s : stmt) : Prop := wf_stmt s.
 
   (* one statement *)
   Lemma stmt_apply_sound x s r d r' :
@@ -376,9 +403,9 @@ Section Refinement.
     (~ stmt_applies x r s /\ d = DPass /\ r' = r) \/
     (stmt_applies x r s /\ acted x s r r' /\ d = match st_disp s with Some d0 => d0 | None => DPass end).
   Proof.
-    intros [Hwf Hk] H. unfold Policy.stmt_apply in H.
+    intros Hwf H. unfold Policy.stmt_apply in H.
     destruct (conds_all x r (st_conds s)) as [b|t] eqn:E; cbn [bind] in H; [|discriminate].
-    pose proof (conds_all_sound x r _ b Hwf Hk E) as Hs.
+    pose proof (conds_all_sound x r _ b Hwf E) as Hs.
     destruct b; cbn [negb] in H.
     - right.
       destruct (act_prepend x (ac_prepend (st_act s))
@@ -422,14 +449,10 @@ Section Refinement.
           unfold decides. destruct (st_disp s) as [d0|]; [split; [reflexivity|exact Hne]|exfalso; apply Hne; reflexivity].
   Qed.
 
-  Definition asg_ok (a : assignment) : Prop := wf_assignment a /\ ~ Known_C14_1 a.
-
   Lemma asg_ok_stmts a p :
-    asg_ok a -> In p (as_pols a) -> Forall stmt_ok (p_stmts p).
+    wf_assignment a -> In p (as_pols a) -> Forall stmt_ok (p_stmts p).
   Proof.
-    intros [Hwf Hk] Hin. unfold wf_assignment in Hwf. rewrite Forall_forall in Hwf.
-    specialize (Hwf p Hin). rewrite Forall_forall in *. intros s Hs. split; [apply Hwf; exact Hs|].
-    intros c Hc Hr. apply Hk. exists p, s, c. auto.
+    intros Hwf Hin. unfold wf_assignment in Hwf. rewrite Forall_forall in Hwf. apply (Hwf p Hin).
   Qed.
 
   Lemma pols_apply_sound x dflt : forall l r d r',
@@ -447,15 +470,15 @@ Section Refinement.
         intros p' Hin. apply Hok. right. exact Hin.
   Qed.
 
-  (* THE REFINEMENT: outside the known class, whatever the code returns is what
-     the reference semantics prescribes *)
+  (* THE REFINEMENT: whatever the code returns is what the reference semantics
+     prescribes *)
   Theorem eval_code_sound a x r d r' :
-    wf_assignment a -> ~ Known_C14_1 a ->
+    wf_assignment a ->
     eval_code a x r = Ok (d, r') -> eval_spec a x r d r'.
   Proof.
-    intros Hwf Hk H. unfold Policy.eval_code in H. unfold PolicySpec.eval_spec, flat_stmts.
+    intros Hwf H. unfold Policy.eval_code in H. unfold PolicySpec.eval_spec, flat_stmts.
     apply pols_apply_sound; [|exact H].
-    intros p Hin. apply (asg_ok_stmts a p); [split; assumption|exact Hin].
+    intros p Hin. apply (asg_ok_stmts a p Hwf Hin).
   Qed.
 
   (* the reference semantics is a function of its inputs *)
@@ -606,20 +629,30 @@ Section Refinement.
     rewrite E in C. discriminate.
   Qed.
 
+  Lemma api_find_not_val l a :
+    api_attrs l -> find_attr AS_PATH l = Some a -> forall v, a_data a <> DVal v.
+  Proof.
+    intros Hapi F. apply find_attr_in in F. destruct F as [Hin Hc].
+    unfold api_attrs in Hapi. rewrite Forall_forall in Hapi. apply (Hapi a Hin Hc).
+  Qed.
+
   Lemma cond_eval_total x r c : api_attrs (r_attrs r) -> exists b, cond_eval x r c = Ok b.
   Proof.
     intros Hapi. destruct c as [n o s|cm v|l|st|v|v|v|t|cm v|l]; cbn [Policy.cond_eval]; eauto.
     - destruct s as [p|l|s|l|l|l]; eauto.
       + destruct (pset_matched p (x_net x)); eauto.
-      + destruct (find_attr AS_PATH (r_attrs r)) as [a|] eqn:F; eauto.
-        destruct (ap_single s); eauto.
-        apply find_attr_in in F. destruct F as [Hin Hc]. unfold api_attrs in Hapi. rewrite Forall_forall in Hapi.
-        pose proof (Hapi a Hin Hc) as Hv. unfold aspath_iter, attr_binary.
+      + destruct (find_attr AS_PATH (r_attrs r)) as [a|] eqn:F; [|cbn [bind]; eauto].
+        destruct (ap_single s); [cbn [bind]; eauto|].
+        pose proof (api_find_not_val _ a Hapi F) as Hv. unfold aspath_iter, attr_binary.
         destruct (a_data a) as [v|b|b]; [exfalso; apply (Hv v); reflexivity| |]; cbn [bind]; eauto.
     - destruct (find_attr AS_PATH (r_attrs r)) as [a|] eqn:F; eauto.
-      apply find_attr_in in F. destruct F as [Hin Hc]. unfold api_attrs in Hapi. rewrite Forall_forall in Hapi.
-      pose proof (Hapi a Hin Hc) as Hv. unfold as_path_length, attr_binary.
+      pose proof (api_find_not_val _ a Hapi F) as Hv. unfold as_path_length, attr_binary.
       destruct (a_data a) as [w|b|b]; [exfalso; apply (Hv w); reflexivity| |]; cbn [bind]; eauto.
+    - destruct rpki as [validate|]; eauto.
+      destruct (find_attr AS_PATH (r_attrs r)) as [a|] eqn:F; [|cbn [bind]; eauto].
+      pose proof (api_find_not_val _ a Hapi F) as Hv. unfold as_path_origin, attr_binary.
+      destruct (a_data a) as [w|b|b]; [exfalso; apply (Hv w); reflexivity| |];
+        (destruct (origin_loop (length b) b (0, [])) as [t0 v0]; cbn [bind]; eauto).
   Qed.
 
   Lemma conds_all_total x r l : api_attrs (r_attrs r) -> exists b, conds_all x r l = Ok b.
@@ -676,8 +709,10 @@ Proof.
 Qed.
 
 (* ------------------------------------------------------------------ *)
-(* known finding C14-1: general as-path regular expressions are never
-   evaluated, so inside the class the code departs from the reference      *)
+(* finding C14-1 (repaired): a general as-path pattern is now evaluated.  The
+   witness on which the old code accepted (Proofs/PolicyPre.v) is rejected, as
+   the reference semantics prescribes, whenever the oracle says the pattern
+   matches the rendered path "65001". *)
 
 Definition w_stmt : stmt :=
   {| st_name := 1;
@@ -692,28 +727,16 @@ Definition w_ctx : ctx :=
 Definition w_route : rstate :=
   {| r_attrs := [{| a_code := AS_PATH; a_flags := 64; a_data := DBin [2; 1; 0; 0; 253; 233] |}]; r_nh := None |}.
 
-Lemma eval_code_eq_spec_refuted_lemma :
-  exists (rxa : N -> list (list N) -> bool) a x r,
-    Known_C14_1 a /\ wf_assignment a /\
-    (forall rc re rl, eval_code rc re rl a x r = Ok (DAccept, r)) /\
-    (forall rc re rl, eval_spec rc re rl rxa a x r DReject r).
-Proof.
-  exists (fun _ _ => true), w_asg, w_ctx, w_route. split; [|split; [|split]].
-  - exists {| p_name := 1; p_stmts := [w_stmt] |}, w_stmt,
-      (CSet 1 MAny (SAsPath {| ap_single := []; ap_regex := [1] |})).
-    repeat split; try (left; reflexivity). cbn. discriminate.
-  - repeat constructor.
-  - intros rc re rl. vm_compute. reflexivity.
-  - intros rc re rl. unfold eval_spec, flat_stmts. cbn [as_pols w_asg flat_map p_stmts app as_disp].
-    eapply R_decide.
-    + constructor; [|constructor]. cbn [cond_holds opt_holds]. exists (inr 1). split; [left; reflexivity|].
-      vm_compute. reflexivity.
-    + exists (r_attrs w_route). split; reflexivity.
-    + split; [reflexivity|discriminate].
-Qed.
+Example regex_pattern_evaluated :
+  render_path [2; 1; 0; 0; 253; 233] = [54; 53; 48; 48; 49] /\
+  (forall rc re rl rp,
+     eval_code rc re rl (fun id s => (id =? 1) && (length s =? 5)%nat) rp w_asg w_ctx w_route = Ok (DReject, w_route)) /\
+  (forall rc re rl rp,
+     eval_code rc re rl (fun _ _ => false) rp w_asg w_ctx w_route = Ok (DAccept, w_route)).
+Proof. repeat split; intros; vm_compute; reflexivity. Qed.
 
 (* ------------------------------------------------------------------ *)
-(* non-vacuity: an assignment outside the known class whose evaluation
+(* non-vacuity: an assignment whose evaluation
    exercises nested prefix entries, an as-path pattern, accumulation and a
    deciding statement                                                      *)
 
@@ -740,31 +763,28 @@ Definition ex_ctx : ctx :=
 Definition ex_route : rstate :=
   {| r_attrs := [{| a_code := AS_PATH; a_flags := 64; a_data := DBin [2; 1; 0; 0; 253; 233; 2; 0] |}]; r_nh := None |}.
 
-Example ex_hypotheses : wf_assignment ex_asg /\ ~ Known_C14_1 ex_asg /\ api_attrs (r_attrs ex_route) /\ wire_attrs (r_attrs ex_route).
+Example ex_hypotheses : wf_assignment ex_asg /\ api_attrs (r_attrs ex_route) /\ wire_attrs (r_attrs ex_route).
 Proof.
-  split; [|split; [|split]].
+  split; [|split].
   - repeat constructor; vm_compute; congruence.
-  - intros (p & s & c & Hp & Hs & Hc & Hr).
-    destruct Hp as [<-|[<-|[]]]; destruct Hs as [<-|[]]; cbn [st_conds ex_s1 ex_s2] in Hc;
-      repeat (destruct Hc as [<-|Hc]; [cbn in Hr; try contradiction; try (apply Hr; reflexivity)|]); try destruct Hc.
   - repeat constructor. intros _ v. discriminate.
   - repeat constructor. intros _. exists [(2, [65001]); (2, [])]. split; [|reflexivity].
     repeat constructor; cbn; try lia.
 Qed.
 
-Example ex_evaluates rc re rl :
-  exists r', eval_code rc re rl ex_asg ex_ctx ex_route = Ok (DReject, r') /\ length (r_attrs r') = 3%nat.
+Example ex_evaluates rc re rl rxa rp :
+  exists r', eval_code rc re rl rxa rp ex_asg ex_ctx ex_route = Ok (DReject, r') /\ length (r_attrs r') = 3%nat.
 Proof. eexists. split; vm_compute; reflexivity. Qed.
 
 (* ------------------------------------------------------------------ *)
 (* final statements pinned in Props/C14.v                               *)
 
 Lemma C14_eval_never_panics_api :
-  forall (rc re rl : N -> N -> bool) a x r,
-    api_attrs (r_attrs r) -> exists d r', eval_code rc re rl a x r = Ok (d, r').
-Proof. intros rc re rl a x r H. exact (eval_total_api rc re rl (fun _ _ => true) a x r H). Qed.
+  forall (rc re rl : N -> N -> bool) (rxa : N -> list N -> bool) (rp : option (nlri -> N -> option N)) a x r,
+    api_attrs (r_attrs r) -> exists d r', eval_code rc re rl rxa rp a x r = Ok (d, r').
+Proof. intros rc re rl rxa rp a x r H. exact (eval_total_api rc re rl rxa rp a x r H). Qed.
 
 Lemma C14_eval_never_panics_wire :
-  forall (rc re rl : N -> N -> bool) a x r,
-    wire_attrs (r_attrs r) -> exists d r', eval_code rc re rl a x r = Ok (d, r').
-Proof. intros rc re rl a x r H. apply C14_eval_never_panics_api. apply wire_is_api. exact H. Qed.
+  forall (rc re rl : N -> N -> bool) (rxa : N -> list N -> bool) (rp : option (nlri -> N -> option N)) a x r,
+    wire_attrs (r_attrs r) -> exists d r', eval_code rc re rl rxa rp a x r = Ok (d, r').
+Proof. intros rc re rl rxa rp a x r H. apply C14_eval_never_panics_api. apply wire_is_api. exact H. Qed.
